@@ -418,6 +418,32 @@ def float_roundtrip(formats):
     return h
 
 
+def foreign_stl_floats(sx):
+    """an ASCII STL file written by an independent writer with actual floats: triangles whose corners differ only far behind the
+    decimal point (tiny models) or are huge stay distinct points with bit-identical coordinates"""
+    import mouette as M
+    scale = [1.0, 2.5e-7, 1e-12, 3e9][sx.choice("scale", 4)]
+    base = [(0.0, 0.0, 0.0), (1.0, 0.0, 0.0), (0.0, 1.0, 0.25), (1.0, 1.0, 1.0)]
+    P = [tuple(c * scale for c in p) for p in base]
+    F = [(0, 1, 2), (1, 3, 2)]
+    tag = " [ASCII STL by a reference writer, coordinates of order %g]" % scale
+    tmp = tempfile.mkdtemp(prefix="vf-c04-", dir="/var/tmp")
+    try:
+        path = os.path.join(tmp, "r.stl")
+        ref_write("stl", path, [[repr(float(x)) for x in p] for p in P], [], F, [])
+        try:
+            loaded = M.mesh.load(path)
+        except Exception as e:
+            sx.check(False, "load raised on a valid file of the format" + tag, detail=repr(e))
+            return
+        ok = len(loaded.faces) == len(F) and all(
+            [float(x) for x in loaded.vertices[int(loaded.faces[k][i])]] == list(P[F[k][i]]) for k in range(len(F)) for i in range(3))
+        sx.check(ok, "an ASCII STL file loads with its triangles and their corner coordinates" + tag,
+                 detail=str([[list(map(float, loaded.vertices[int(v)])) for v in f] for f in loaded.faces])[:300])
+    finally:
+        shutil.rmtree(tmp, ignore_errors=True)
+
+
 def foreign(shapes, formats):
     """files written by an independent writer load correctly"""
     def h(sx):
@@ -541,6 +567,7 @@ def obligations(tier):
         obs.append(Ob("roundtrip-" + fmt, roundtrip(shapes, [fmt]), covers=COVERS, split=4, note="save+load of every shape as ." + fmt))
     obs.append(Ob("float-roundtrip", float_roundtrip(["obj", "mesh", "geogram_ascii", "off", "tet", "xyz"]), covers=COVERS, split=3,
                   note="bit-exact round trip of extreme concrete floats in every text format"))
+    obs.append(Ob("foreign-stl-floats", foreign_stl_floats, covers=COVERS, note="ASCII STL with concrete coordinates of very small / very large magnitude"))
     obs.append(Ob("foreign", foreign(["cloud", "poly", "tri", "tri2", "quad", "mixed", "penta", "tet", "hex"], ["obj", "off", "mesh", "tet", "xyz", "stl"]),
                   covers=COVERS, split=4, note="files written by an independent writer"))
     obs.append(Ob("geogram-attributes", geogram_attributes(["vertices"] if q else ["vertices", "edges", "faces"]), covers=COVERS, split=4,
